@@ -161,9 +161,11 @@ def run_harness(exe, area, seed, cases, tier, extra):
     cmd = [exe, area, "--seed", str(seed), "--cases", str(cases), "--tier", tier] + list(extra)
     # a run that was killed from outside or produced no trace at all (machine overload, a cache file pruned by a
     # concurrent build) says nothing about the property: it is repeated, at most twice; a deterministic crash stays
+    r, out = None, ""
     for attempt in range(3):
-        if not os.path.exists(exe):
-            break
+        if not os.path.exists(exe):   # pruned from the cache by a concurrent build: build it again
+            exe = build_repo.build(build_repo.harness_sources(), "tmcg_harness", "fast" if "-fast-" in exe else "san", quiet=True)
+            cmd[0] = exe
         r = subprocess.run(cmd, capture_output=True, env=env)
         out = r.stdout.decode(errors="replace")
         if r.returncode >= 0 and out.strip():
